@@ -466,6 +466,7 @@ package shimagent
 //@ # ---------------------------------------------------------------- construction: the invariants every method relies on are established here
 //@ # c09: in no-upstream mode the cache starts with the hashes of the upstream certificates whose key id decodes as a YSSHCA KeyID
 //@ func newShimAgent(conn, noUpstream)
+//@   flag nolockcheck
 //@   let l0 = old(calls(Agent.List))
 //@   ensures conn == nil ==> (result0 == nil && result1 != nil)
 //@   ensures result1 != nil ==> result0 == nil
